@@ -39,6 +39,7 @@ func (v *Verifier) ProveLemma(name string, so *SolveOpts) *UnitResult {
 		return fail("STALE-CONTRACT: lemma not found")
 	}
 	u.W = NewWorld(l.Floats)
+	u.W.IntBV = l.BV
 	u.Pkg = v.SSAPkgs[cf.PkgPath]
 	var out *UnitResult
 	func() {
